@@ -176,6 +176,18 @@ def set_iteration_visits_each_member_once():
         a = [R.randint(0, 9) for _ in range(R.randint(0, 8))]; b = [R.randint(0, 9) for _ in range(R.randint(0, 5))]
         d = set(a) - set(b); seen = list(d); assert len(seen) == len(set(seen)) and set(seen) == {x for x in a if x not in b}; n += 1
     return n
+@test("C01", "C03")
+def slice_clamping_as_encoded():
+    """the executor's encoding of xs[a:b] (negative bounds count from the end, then clamp into [0, len]; empty when hi <= lo) against CPython"""
+    n = 0
+    for L in range(0, 7):
+        xs = list(range(10, 10 + L))
+        for a in list(range(-9, 10)) + [None]:
+            for b in list(range(-9, 10)) + [None]:
+                norm = lambda v, d: d if v is None else (max(v + L, 0) if v < 0 else min(v, L))
+                lo, hi = norm(a, 0), norm(b, L); want = [xs[lo + t] for t in range(max(hi - lo, 0))]
+                assert xs[a:b] == want; n += 1
+    return n
 @test("C06")
 def column_stack_transposes():
     import numpy as np
